@@ -114,6 +114,7 @@ def main():
     ap.add_argument("--files", default="")
     ap.add_argument("--out", default="/tmp/mut/results.jsonl")
     ap.add_argument("--timeout", type=int, default=150)
+    ap.add_argument("--skip", default="", help="results file(s) of earlier runs, comma separated: mutants listed there are not run again")
     a = ap.parse_args()
     anc = anchors()
     files = [f for f in anc if os.path.exists(os.path.join("/repo", f)) and not f.endswith("_test.go")]
@@ -124,6 +125,15 @@ def main():
         text = open(os.path.join("/repo", f)).read()
         for (i, what, newline) in candidates(f, text):
             allc.append((f, i, what, newline))
+    seen = set()
+    for sf in [x for x in a.skip.split(",") if x]:
+        for l in open(sf):
+            try:
+                r = json.loads(l)
+                seen.add((r["file"], r["line"], r["op"]))
+            except Exception:
+                pass
+    allc = [c for c in allc if (c[0], c[1] + 1, c[2]) not in seen]
     rnd = random.Random(a.seed)
     rnd.shuffle(allc)
     chosen = allc[: a.n]
